@@ -892,6 +892,9 @@ RULE = ("csv: Hypothesis over (srid ENU/GEO/ECEF, 1..8 fixes, with/without U and
         "CSV step with a time column relies on a print format set before an earlier GPX step or on a read format set before an "
         "earlier step. Distinct = hash of the case.")
 
+# coverage-guided stage of the thorough tier (vt/fuzz.py): sub-check -> libFuzzer executions
+FUZZ = {'csv': 8000, 'wkt': 6000}
+
 SUBCHECKS = [
     SubCheck("csv", body_csv, strategy=strat_csv, quick=6000, thorough=120000, qshards=8),
     SubCheck("csv_configs", body_csv, enum=enum_csv, rule="complete srid x layout x separator x header x time-format product",
